@@ -238,6 +238,15 @@ def f():
 '''
 
 
+def compiles(s) -> bool:
+    """`break`/`continue` directly under a nested def (not in a loop of that def) do not compile."""
+    try:
+        compile(HARNESS.format(body=s_text(s, 2, tick=True)), "<stmt>", "exec")
+        return True
+    except SyntaxError:
+        return False
+
+
 def explore(s, suppress: bool, max_len=9, max_ticks=5):
     """Set of observed outcomes {'N','R','E','B','C'} over all scripts of the unknowns."""
     code = compile(HARNESS.format(body=s_text(s, 2, tick=True)), "<stmt>", "exec")
@@ -340,12 +349,12 @@ def check(run: common.Run):
     mods = common.import_impl()
     rnd = random.Random(run.seed)
 
-    stmts = list(depth1()) + list(loops_with_compound_child())
+    stmts = [s for s in itertools.chain(depth1(), loops_with_compound_child()) if compiles(s)]
     n_exh = len(stmts)
     nrand = 3000 if run.tier == "quick" else 40000
     for _ in range(nrand):
         s = rand_stmt(rnd, rnd.choice([2, 2, 3]))
-        if s[0] in ("pass", "call", "return", "raise", "break", "continue", "assert"):
+        if s[0] in ("pass", "call", "return", "raise", "break", "continue", "assert") or not compiles(s):
             continue
         stmts.append(s)
     hist = Counter(s[0] for s in stmts)
